@@ -22,18 +22,18 @@ pub assume_specification<T>[ <[T]>::swap ](s: &mut [T], a: usize, b: usize)
     requires a < old(s)@.len(), b < old(s)@.len(),
     ensures final(s)@ == old(s)@.update(a as int, old(s)@[b as int]).update(b as int, old(s)@[a as int]);
 
-pub assume_specification<'a, T, P: FnMut(&'a T) -> bool>[ <std::slice::Iter<'a, T> as Iterator>::position ](it: &mut std::slice::Iter<'a, T>, p: P) -> (r: Option<usize>)
-    where std::slice::Iter<'a, T>: Sized,
-    requires forall|i: int| 0 <= i < vstd::std_specs::slice::into_iter_elts(*old(it)).len() ==> call_requires(p, (&#[trigger] vstd::std_specs::slice::into_iter_elts(*old(it))[i],)),
+// A5 (assumed std contract): `v.iter().position(p)`: the index of the first element p accepts, None when it
+// accepts none (documentation of Iterator::position)
+#[verifier::external_body]
+pub fn slice_position<T, P: FnMut(&T) -> bool>(v: &Vec<T>, p: P) -> (r: Option<usize>)
+    requires forall|i: int| 0 <= i < v@.len() ==> call_requires(p, (&#[trigger] v@[i],)),
     ensures
-        ({
-            let s = vstd::std_specs::slice::into_iter_elts(*old(it));
-            match r {
-                Some(i) => i < s.len() && call_ensures(p, (&s[i as int],), true)
-                    && forall|j: int| 0 <= j < i ==> call_ensures(p, (&#[trigger] s[j],), false),
-                None => forall|j: int| 0 <= j < s.len() ==> call_ensures(p, (&#[trigger] s[j],), false),
-            }
-        });
+        match r {
+            Some(i) => i < v@.len() && call_ensures(p, (&v@[i as int],), true)
+                && forall|j: int| 0 <= j < i ==> call_ensures(p, (&#[trigger] v@[j],), false),
+            None => forall|j: int| 0 <= j < v@.len() ==> call_ensures(p, (&#[trigger] v@[j],), false),
+        },
+{ v.iter().position(p) }
 
 // A2 (assumed std contract): `o.get_or_insert_with(BTreeSet::new).insert(k)` adds k to the set held by
 // the option (an empty set when it was None) and makes it Some
